@@ -287,6 +287,7 @@ def _builtin(fa, b, e, args, kw, env):
     if b == 'zip':
         if not args:
             return V(('ITER', '?', 'D', VTOP))
+        _zipped_streams(fa, e, args)
         if any(isinstance(x, ast.Starred) for x in e.args):
             el = set()
             for x, xn in zip(args, e.args):
@@ -332,6 +333,17 @@ def _builtin(fa, b, e, args, kw, env):
             fa.mutation(e, n0, a0, b, env)
         return VNONE
     return None
+
+
+def _zipped_streams(fa, e, args):
+    """zip(it, col): an argument paired row by row with a table iterator is itself
+    a row-aligned stream input (e.g. the `col` of addcolumn): mark it like iter()."""
+    has_table_iter = any(any(a[0] == 'ITER' and a[3] is None for a in x) for x in args)
+    if not has_table_iter:
+        return
+    for x in args:
+        if any(a[0] in ('ARG', 'SELFATTR') for a in x) and not any(a[0] == 'ITER' for a in x):
+            fa.emit('iter', e, {'arg': x, 'via': 'zip'})
 
 
 def _consume(fa, how, e, n0, a0, env, kw):
@@ -442,6 +454,7 @@ def _ext(fa, nm, e, args, kw, env):
         if not args:
             return VTOP
         fill = kw.get('fillvalue', VNONE)
+        _zipped_streams(fa, e, args)
         if any(isinstance(x, ast.Starred) for x in e.args):
             el = set(fill)
             for x, xn in zip(args, e.args):
